@@ -18,7 +18,7 @@ def gen(rep, tier, suites, clauses):
         name, text, cfg = naming_cfg.build(s, maxw=3 if (tier == "quick" or s != "accessors") else 3, res=res)
         r = engine.run_tlc(name, cfg, module_text=text, timeout=1800)
         rep.add_mc(r, f"Gen_Naming {s}: laws (distinct, identifiers, not reserved, each accessor resolves to its column) + cases")
-        cases = [c for _, c in r.prints]
+        cases = [dict(c, _n=i) for i, (_, c) in enumerate(r.prints)]
         cp, op = os.path.join(sc, f"names_{s}.json"), os.path.join(sc, f"names_{s}_out.json")
         json.dump(cases, open(cp, "w"))
         rep.sample({"suite": "names." + s, "case": cases[len(cases) // 3]})
